@@ -32,6 +32,14 @@ def opStreamFx (j : Json) : R Json := do
     ("final_lines", match fin with | some ls => Json.arr (ls.map Json.str).toArray | none => Json.null),
     ("unstream_ok", match back with | some (d, r) => Json.bool (d == desc && r == rs) | none => Json.bool false)]
 
+/-- `unstream`: the reader on the lines of a real stream file: descriptor line and rows per resource -/
+def opUnstream (j : Json) : R Json := do
+  let ls ← strList (← arr j "lines")
+  let n ← (← j.getObjVal? "nres").getNat?
+  match Ckpt.unstream (fun _ => n) ls with
+  | some (d, rs) => return Json.mkObj [("desc", d), ("resources", Json.arr (rs.map (fun r => Json.arr (r.map Json.str).toArray)).toArray)]
+  | none => return Json.mkObj [("desc", Json.null), ("resources", Json.arr #[])]
+
 /-- `dumpfx`: effect list of dump_to_path on the output directory -/
 def opDumpFx (j : Json) : R Json := do
   let files ← (← arr j "files").toList.mapM (fun f => do
